@@ -2,7 +2,7 @@
    This file holds only the property theorems; every proof is `exact <lemma of Proofs/C03.v>`. *)
 From Coq Require Import Floats.SpecFloat.
 Require Import Model.Base Model.Syntax Model.F64 Model.Lexer Model.Value Model.Context Model.Eval.
-Require Import Spec.OpTable Proofs.C03.
+Require Import Spec.OpTable Proofs.Common Proofs.C03.
 
 (* For every std oracle, every binary operator, all well-formed operand values of every type, every
    context and log: the class (value / arithmetic error / type error) of what Operator::eval returns
